@@ -2,6 +2,7 @@
     Property theorems only; each is closed by [exact] of a lemma proved in Proofs/. *)
 Require Import Sedpack.Model.Base Sedpack.Generated.GenIter Sedpack.Model.Iter Sedpack.Proofs.IterProofs Sedpack.Proofs.ChainProofs Sedpack.Proofs.CycleChain.
 Require Import Sedpack.Generated.GenRegistry Sedpack.Model.Registry Sedpack.Proofs.RegistryProofs.
+Require Import Sedpack.Model.PipeBase Sedpack.Generated.GenPipeline Sedpack.Proofs.PipelineProofs Sedpack.Proofs.RustPipeline.
 From Coq Require Import Permutation.
 
 (** Unshuffled: the repeating path stream is periodic — its k-th element is the (k mod N)-th
@@ -54,6 +55,18 @@ Theorem c19_rust_stream_periodic :
   forall m e, nth_error (stream i ops (snd (run idgen (init passes rep) ops))) m = Some e -> nth_error l (m mod length l) = Some e.
 Proof. exact @stream_periodic. Qed.
 Print Assumptions c19_rust_stream_periodic.
+
+(** ... and with the passes being the composition regenerated from RustGenerator._single_iter: the unshuffled repeating Rust stream
+    hands over, at every position m, example m mod N of [spec] (the selected shards' examples in list order, processed). *)
+Theorem c19_rust_interface_periodic :
+  forall (path ex : Type) (read : path -> list ex) (process : ex -> ex) (idgen : nat -> nat), (forall a b, idgen a = idgen b -> a = b) ->
+  forall (paths : nat -> list path) (shuffle : nat -> nat) (hp rep : nat -> bool)
+         (pick : nat -> nat -> nat -> nat -> nat) (perm : nat -> nat -> list path -> list path) (ops : list op) (i : nat),
+  shuffle i = 0 ->
+  forall m e, nth_error (stream i ops (snd (run idgen (init (rust_pass path ex read process paths shuffle hp pick perm) rep) ops))) m = Some e ->
+              nth_error (spec path ex read process (hp i) (paths i)) (m mod length (spec path ex read process (hp i) (paths i))) = Some e.
+Proof. exact rust_interface_unshuffled. Qed.
+Print Assumptions c19_rust_interface_periodic.
 
 (** It never ends and never stalls: with non-empty passes every further request to generator i is answered with an example, unless
     the consumer dropped i, or i is not repeating and has received exactly its one pass. *)
